@@ -15,7 +15,7 @@ use soroban_sdk::xdr::ScVal;
 use soroban_sdk::{Address, Env, IntoVal, Symbol, Val, Vec as SVec};
 
 const LENS: [usize; 11] = [0, 1, 31, 32, 33, 135, 136, 137, 272, 4096, 65536];
-const SENDERS: [&str; 6] = ["account", "account-no-auth", "account-stranger-auth", "account-auth-other-args", "contract-self", "contract-names-other"];
+const SENDERS: [&str; 8] = ["account", "account-no-auth", "account-stranger-auth", "account-auth-other-args", "account-auth-other-destination-address", "account-auth-other-destination-chain", "contract-self", "contract-names-other"];
 
 /// Ledger entries owned by `sc`, without TTLs (a TTL bump is not a state change here).
 fn owned_entries(u: &U, sc: &soroban_sdk::xdr::ScAddress) -> Vec<(soroban_sdk::xdr::LedgerKey, soroban_sdk::xdr::LedgerEntry)> {
@@ -73,7 +73,7 @@ pub fn run(ctx: &Ctx, rep: &mut Report) {
         u.skip_events();
         for _ in 0..14 {
             let sender_class = *rng.pick(&SENDERS);
-            let len = if rng.chance(1, 12) { *rng.pick(&LENS) } else { *rng.pick(&LENS[..9]) };
+            let len = if rng.chance(1, 12) || (sender_class.starts_with("account-auth-other") && rng.chance(1, 2)) { *rng.pick(&LENS) } else { *rng.pick(&LENS[..9]) };
             let payload = rng.bytes(len);
             let dchain = gen_string(&mut rng);
             let daddr = gen_string(&mut rng);
@@ -112,6 +112,21 @@ pub fn run(ctx: &Ctx, rep: &mut Report) {
                     let (_, forest) = u.record(&move |env: &Env| {
                         let c = AxelarGatewayClient::new(env, &ga);
                         flat(c.try_call_contract(&usr, &sstr(env, &c4), &sstr(env, &a4), &sbytes(env, &other)))
+                    });
+                    (u.call(Auth::Forest(forest), &direct), sc_addr(&user), false)
+                }
+                "account-auth-other-destination-address" | "account-auth-other-destination-chain" => {
+                    // the sender's authorisation, recorded for the same payload but another destination
+                    let (mut c4, mut a4) = (dchain.clone(), daddr.clone());
+                    if sender_class == "account-auth-other-destination-address" {
+                        a4.push(b'2');
+                    } else {
+                        c4.push(b'2');
+                    }
+                    let (usr, ga, p4) = (user.clone(), gaddr.clone(), payload.clone());
+                    let (_, forest) = u.record(&move |env: &Env| {
+                        let c = AxelarGatewayClient::new(env, &ga);
+                        flat(c.try_call_contract(&usr, &sstr(env, &c4), &sstr(env, &a4), &sbytes(env, &p4)))
                     });
                     (u.call(Auth::Forest(forest), &direct), sc_addr(&user), false)
                 }
@@ -185,5 +200,5 @@ pub fn run(ctx: &Ctx, rep: &mut Report) {
     let mut req: Vec<String> = SENDERS.iter().map(|s| format!("sender:{}", s)).collect();
     req.extend(LENS.iter().map(|l| format!("len:{}", l)));
     rep.notes.insert("required".into(), json!(req));
-    rep.notes.insert("rule".into(), json!("calls with sender in {account with own auth, no auth, stranger's auth, own auth recorded for another payload, contract calling for itself through a proxy, proxy naming another address}, destination strings (empty, ASCII, 1 KiB random bytes, multi-byte UTF-8, invalid UTF-8), payload lengths {0,1,31,32,33,135,136,137,272,4096,65536}; on success exactly one contract_called event equal to independently built ScVals with an independent Keccak-256, gateway entries (TTL ignored), epoch/lookups and message status unchanged. distinct = (sender class, payload length, destination lengths, outcome)"));
+    rep.notes.insert("rule".into(), json!("calls with sender in {account with own auth, no auth, stranger's auth, own auth recorded for another payload, for another destination address or for another destination chain, contract calling for itself through a proxy, proxy naming another address}, destination strings (empty, ASCII, 1 KiB random bytes, multi-byte UTF-8, invalid UTF-8), payload lengths {0,1,31,32,33,135,136,137,272,4096,65536}; on success exactly one contract_called event equal to independently built ScVals with an independent Keccak-256, gateway entries (TTL ignored), epoch/lookups and message status unchanged. distinct = (sender class, payload length, destination lengths, outcome)"));
 }
